@@ -1318,11 +1318,11 @@ class AnyPayloadDecoder(AbstractSimplePayloadDecoder):
                 LOG('decoding as untagged ANY, header substrate %s' % debug.hexdump(chunk))
 
         # Any components do not inherit initial tag
-        asn1Spec = self.protoComponent
+        fragmentSpec = self.protoComponent
 
         if substrateFun and substrateFun is not self.substrateCollector:
             asn1Object = self._createComponent(
-                asn1Spec, tagSet, noValue, **options)
+                fragmentSpec, tagSet, noValue, **options)
 
             for chunk in substrateFun(
                     asn1Object, chunk + substrate, length + len(chunk), options):
@@ -1334,12 +1334,10 @@ class AnyPayloadDecoder(AbstractSimplePayloadDecoder):
             LOG('assembling constructed serialization')
 
         # All inner fragments are of the same type, treat them as octet string
-        substrateFun = self.substrateCollector
-
         while True:  # loop over fragments
 
             for component in decodeFun(
-                    substrate, asn1Spec, substrateFun=substrateFun,
+                    substrate, fragmentSpec, substrateFun=self.substrateCollector,
                     allowEoo=True, **options):
 
                 if isinstance(component, SubstrateUnderrunError):
@@ -1354,7 +1352,8 @@ class AnyPayloadDecoder(AbstractSimplePayloadDecoder):
             chunk += component
 
         if substrateFun:
-            yield chunk  # TODO: Weird
+            # we are a fragment of an outer serialization being assembled
+            yield chunk
 
         else:
             yield self._createComponent(asn1Spec, tagSet, chunk, **options)
